@@ -50,29 +50,30 @@ class Skeletons:
         self.notes = d.get('notes', [])
 
     def entry(self, frames):
-        """innermost frame lying inside an extracted entry function -> (handler name, line)"""
+        """-> (handler, line, held): the frame of an extracted entry function that decides whether the pipeline lock
+        is held.  Innermost first; a frame whose line is covered by a step of the skeleton decides (a frame inside a
+        local closure such as reconfigure's apply() is not: the call site further out is)."""
+        cands = []
         for fn, file, line in frames:
             for h in self.handlers:
                 if file.endswith('/' + h['file']) and h['line'] <= line <= h['end']:
-                    # a function may contain another entry's inlined steps; the frame decides
-                    return h, line
-        return None, None
-
-    @staticmethod
-    def held_at(h, line):
-        flat = [s for s in h['steps']]
-        # a step (statement) covering the line decides
-        for s in flat:
-            if s['line'] <= line <= s['end'] and s['kind'] != 'Spawn':
-                if s['kind'] == 'Lock':
-                    return False
-                return s['held']
-        # otherwise the state after the last non-deferred step that ends before the line
-        held = False
-        for s in sorted((s for s in flat if not s.get('deferred')), key=lambda s: s['line']):
-            if s['end'] < line:
-                held = {'Lock': True, 'Unlock': False}.get(s['kind'], s['held'] if s['kind'] not in ('Lock', 'Unlock') else held)
-        return held
+                    cands.append((h, line))
+        for h, line in cands:
+            for s in h['steps']:
+                # inlined steps (updateConfig <- reconfigure) carry the callee's lines: only match in the callee itself
+                if s['line'] <= line <= s['end'] and s['kind'] != 'Spawn' and not s.get('why', '').startswith('inlined '):
+                    return h, line, (False if s['kind'] == 'Lock' else s['held'])
+        if cands:
+            h, line = cands[-1]
+            held = False     # the state after the last non-deferred step above the line
+            for s in sorted((s for s in h['steps'] if not s.get('deferred')), key=lambda s: s['line']):
+                if s['end'] < line and not s.get('why', '').startswith('inlined '):
+                    if s['kind'] == 'Lock':
+                        held = True
+                    elif s['kind'] == 'Unlock':
+                        held = False
+            return h, line, held
+        return None, None, None
 
 
 def short(fn):
@@ -85,12 +86,11 @@ def classify(rep, sk):
     info = []
     for st in stacks:
         fr = st['frames']
-        h, line = sk.entry(fr)
+        h, line, held = sk.entry(fr)
         top = short(fr[0][0]) if fr else '?'
         fetch = any('goFetchPodResources.func' in f[0] for f in fr)
         agent = any('GoGetPodResources.func' in f[0] for f in fr)
         harness = (h is None) and any('zz_verif_c15_test.go' in f[1] for f in fr)
-        held = Skeletons.held_at(h, line) if h else None
         info.append(dict(top=top, handler=h['name'] if h else None, line=line, held=held, fetch=fetch, agent=agent,
                          harness=harness, getres=any(f[0].endswith('(*pod).GetPodResources') for f in fr)))
     unlocked = sorted({i['handler'] for i in info if i['handler'] and i['held'] is False})
@@ -147,7 +147,7 @@ def run(tier, seed, replay=None):
                     'Definition M_fetch := Eval vm_compute in fetch_diag gen_fetch gen_reader.\nPrint M_fetch.\n'
                     'Definition M_fob := Eval vm_compute in fetch_obligation gen_fetch gen_reader.\nPrint M_fob.\n'
                     'Definition M_seq := Eval vm_compute in (chan_free gen_fetch && chan_free gen_reader)%bool.\nPrint M_seq.\n'
-                    'Definition M_n := Eval vm_compute in length gen_handlers.\nPrint M_n.\n')
+                    'Definition M_n := Eval vm_compute in List.length gen_handlers.\nPrint M_n.\n')
         rc, out = coqc_file(p)
         ill = parse_coq_print(out, 'M_ill')
         ok = parse_coq_print(out, 'M_ok')
@@ -205,7 +205,7 @@ def run(tier, seed, replay=None):
         os.makedirs(rdir, exist_ok=True)
         machines.dump(machines.zoo()[1], os.path.join(rdir, 'machine.json'))
         env = {'VERIF_OUT': rdir, 'VERIF_SEED': str(r['seed']), 'VERIF_C15_N': str(r['n']), 'VERIF_C15_ITERS': str(r['iters']),
-               'VERIF_C15_BUDGET_S': '120', 'GORACE': 'log_path=%s/race halt_on_error=0' % rdir}
+               'VERIF_C15_BUDGET_S': '25' if tier == 'quick' else '120', 'GORACE': 'log_path=%s/race halt_on_error=0' % rdir}
         if r['procs']:
             env['GOMAXPROCS'] = str(r['procs'])
         rc, out, dt = go_test('./pkg/resmgr/', ov, '^TestVerifC15$', env=env, timeout=900 if tier != 'quick' else 420, race=True)
